@@ -146,7 +146,7 @@ func c06RandomItems(c *core.Ctx, web bool) []c06Item {
 			if s.Exception {
 				switch c.Rng.Intn(9) {
 				case 7:
-					s.DocOpts = [][]string{{"urlblock", "genericblock"}, {"genericblock", "urlblock"}, {"document", "genericblock"}, {"genericblock", "elemhide"}, {"urlblock", "elemhide", "jsinject"}}[c.Rng.Intn(5)]
+					s.DocOpts = [][]string{{"urlblock", "genericblock"}, {"genericblock", "urlblock"}, {"document", "genericblock"}, {"genericblock", "elemhide"}, {"urlblock", "elemhide", "jsinject"}, {"urlblock", "document"}, {"elemhide", "document"}, {"jsinject", "content", "document"}}[c.Rng.Intn(8)]
 				case 0, 1:
 					s.DocOpts = []string{"urlblock"}
 				case 2, 3:
@@ -301,7 +301,7 @@ var c06Catalog = func() (out []c06Item) {
 	add(false, &gen.Spec{Badfilter: true})
 	add(false, &gen.Spec{Badfilter: true, Exception: true})
 	add(false, &gen.Spec{Badfilter: true, Important: true})
-	for _, os := range [][]string{{"urlblock", "genericblock"}, {"document", "genericblock"}, {"genericblock", "elemhide"}} {
+	for _, os := range [][]string{{"urlblock", "genericblock"}, {"document", "genericblock"}, {"genericblock", "elemhide"}, {"urlblock", "document"}} {
 		add(true, &gen.Spec{Exception: true, DocOpts: os})
 		add(false, &gen.Spec{Exception: true, DocOpts: os})
 	}
